@@ -19,6 +19,7 @@ import (
 	"sort"
 	"testing"
 	"testing/synctest"
+	"time"
 )
 
 var vfLimTypeName = [streamTypeCount]string{bidiStream: "bidi", uniStream: "uni"}
@@ -52,6 +53,7 @@ type vfLimCall struct {
 	donec  chan struct{}
 	s      *Stream // conn level: the stream that was created
 	fin    bool    // conn level: the stream has been finished by the driver
+	gone   bool    // conn level: ... and is no longer in the conn's stream map
 }
 
 // vfLimUnit is one unit-level run.
@@ -175,6 +177,11 @@ func (r *vfLimUnit) apply(op vfLimOp) {
 		r.loc[bidiStream].connHasClosed()
 		r.loc[uniStream].connHasClosed()
 		r.settle()
+	case "late":
+		// what streamForFrame does for a frame naming a stream of ours that is not in the map
+		was := r.loc[ty].wasOpened(op.Num)
+		r.emit(map[string]any{"e": "lateframe", "ty": op.Ty, "num": op.Num, "was": was})
+		r.settle()
 	case "peeropen":
 		lim := &r.rem[ty]
 		err := lim.open(newStreamID(clientSide, ty, op.Num))
@@ -256,6 +263,19 @@ func vfLimRandomUnit(r *vfLimUnit, rnd *rand.Rand, nops int) {
 		case k < 18:
 			if bl := r.blockedCalls(); len(bl) > 0 {
 				r.apply(vfLimOp{E: "cancel", ID: bl[rnd.Intn(len(bl))].id})
+			}
+		case k < 22:
+			cur := r.loc[ty].opened
+			if cur < 0 {
+				cur = 0
+			}
+			num := cur - 1 - int64(rnd.Intn(2))
+			if num < 0 || rnd.Intn(5) == 0 {
+				num = cur + int64(rnd.Intn(2))
+			}
+			r.apply(vfLimOp{E: "late", Ty: tn, Num: num})
+			if rnd.Intn(2) == 0 {
+				r.apply(vfLimOp{E: "call", Ty: tn})
 			}
 		case k < 34:
 			// around the number of streams already opened: stale, equal, one or a few more
@@ -603,8 +623,47 @@ func (r *vfLimConn) apply(op vfLimOp) {
 			}
 			r.tc.writeAckForAll()
 			r.settle(nil, "")
+			if !r.closed {
+				id := c.s.id
+				r.tc.conn.runOnLoop(context.Background(), func(now time.Time, conn *Conn) {
+					_, present := conn.streams.streams[id]
+					c.gone = !present
+				})
+			}
 			return
 		}
+	case "lateframe":
+		// a late / duplicate / retransmitted frame from the peer for a stream we opened and
+		// finished (preferably one the conn has already forgotten)
+		var cands []*vfLimCall
+		for _, c := range r.calls {
+			if c.s != nil && c.fin && c.gone && c.s.id.streamType() == ty {
+				cands = append(cands, c)
+			}
+		}
+		if len(cands) == 0 {
+			return
+		}
+		c := cands[int(op.Num)%len(cands)]
+		id := c.s.id
+		kinds := []string{"stop_sending", "max_stream_data"}
+		if ty == bidiStream {
+			kinds = append(kinds, "stream_fin", "reset_stream")
+		}
+		kind := kinds[int(op.V)%len(kinds)]
+		var f debugFrame
+		switch kind {
+		case "stop_sending":
+			f = debugFrameStopSending{id: id, code: 7}
+		case "max_stream_data":
+			f = debugFrameMaxStreamData{id: id, max: 1 << 20}
+		case "stream_fin":
+			f = debugFrameStream{id: id, fin: true}
+		case "reset_stream":
+			f = debugFrameResetStream{id: id, code: 3, finalSize: 0}
+		}
+		r.tc.writeFrames(packetType1RTT, f)
+		r.settle(map[string]any{"e": "clateframe", "ty": op.Ty, "num": id.num(), "kind": kind}, "outcome")
 	case "peeropen":
 		r.peerFrame(ty, op.Num)
 	case "peerdone":
@@ -700,7 +759,17 @@ func vfLimConnTrace(t *testing.T, env *vfEnv, trace int, rnd *rand.Rand, nops in
 				r.apply(vfLimOp{E: "cancel", ID: bl[rnd.Intn(len(bl))].id})
 			}
 		case k < 36:
-			v := int64(rnd.Intn(10))
+			// around the number of streams we have opened (so that we often sit exactly at the limit)
+			var opened int64
+			for _, c := range r.calls {
+				if c.s != nil && c.s.id.streamType() == ty {
+					opened++
+				}
+			}
+			v := opened + int64(rnd.Intn(4)) - 1
+			if v < 0 || rnd.Intn(5) == 0 {
+				v = int64(rnd.Intn(10))
+			}
 			r.apply(vfLimOp{E: "peermax", Ty: tn, V: v})
 		case k < 38:
 			if rnd.Intn(4) == 0 {
@@ -727,10 +796,20 @@ func vfLimConnTrace(t *testing.T, env *vfEnv, trace int, rnd *rand.Rand, nops in
 				num = hi
 			}
 			r.apply(vfLimOp{E: "peeropen", Ty: tn, Num: num})
-		case k < 90:
+		case k < 80:
 			r.apply(vfLimOp{E: "peerdone", Ty: tn})
-		default:
+		case k < 90:
 			r.apply(vfLimOp{E: "localdone"})
+		default:
+			// late frame for a finished stream of ours, in every order relative to open
+			// attempts: sometimes a call is started first (it may block), sometimes right after
+			if rnd.Intn(3) == 0 {
+				r.apply(vfLimOp{E: "call", Ty: tn})
+			}
+			r.apply(vfLimOp{E: "lateframe", Ty: tn, Num: int64(rnd.Intn(8)), V: int64(rnd.Intn(8))})
+			if rnd.Intn(2) == 0 {
+				r.apply(vfLimOp{E: "call", Ty: tn})
+			}
 		}
 	}
 	for _, c := range r.calls {
